@@ -327,9 +327,27 @@ def generate(unit):
             if not cm:
                 raise Undecided(f"lost anchor: no closure after /{kv['closure']}/ in {kv['item']} of {kv['file']}")
             hm = re.compile(r"(?:move\s+)?\|\s*(\w+)\s*(?::[^|,]*)?((?:,\s*\w+\s*(?::[^|,]*)?)*)\|\s*(?:async\s+move\s+)?").match(src, cm.end())
-            if not hm or src[hm.end()] != "{":
-                raise Undecided(f"lost anchor: closure after /{kv['closure']}/ in {kv['item']} is not a block closure (a block after `|x, ..|` or after `|x, ..| async move`)")
+            if not hm:
+                raise Undecided(f"lost anchor: closure after /{kv['closure']}/ in {kv['item']} has no `|x, ..|` header")
             sig_start, b = cm.end(), hm.end()
+            if src[b] != "{":
+                # an expression closure `|x| EXPR`: EXPR runs to the `)` or `,` that closes the call at
+                # nesting depth 0; it is lifted as the block `{ EXPR }` (on a private copy of the text)
+                depth, i2 = 0, b
+                while i2 < end:
+                    if mask[i2]:
+                        c = src[i2]
+                        if c in "([{":
+                            depth += 1
+                        elif c in ")]}":
+                            if depth == 0:
+                                break
+                            depth -= 1
+                        elif c == "," and depth == 0:
+                            break
+                    i2 += 1
+                src = src[:b] + "{ " + src[b:i2].rstrip() + " }" + src[i2:]
+                mask = rscan.code_mask(src)
             end = rscan.match_brace(src, mask, b) + 1
             # `$x` in //@expect, //@sig and the contract stands for the closure's own parameter name
             # (`$y`, `$z`: its second and third parameter)
@@ -338,6 +356,7 @@ def generate(unit):
                 blk["expect"] = [e.replace(var, xname) for e in blk["expect"]]
                 blk["sig"] = blk["sig"].replace(var, xname) if blk["sig"] else blk["sig"]
                 blk["contract"] = [c.replace(var, xname) for c in blk["contract"]]
+                blk["entry"] = [c.replace(var, xname) for c in blk.get("entry", [])]
                 for k in blk["loop"]:
                     blk["loop"][k] = [c.replace(var, xname) for c in blk["loop"][k]]
         real_sig = rscan.norm(src[sig_start:b])
